@@ -11,6 +11,7 @@ LEVEL_TEXT = ("Bounded verification by symbolic execution of the real CircularRe
 LEVEL_NOTE = ("Bounds: n<=24 quick / n<=40 thorough (k case-split by residue above n=10), 1 feature with <=2 (quick) / <=3 (thorough) parts, one track; k unbounded. "
               "Trusted: z3, CPython, symx models of Bio.Seq/SeqRecord/SeqFeature (validated differentially against Biopython 1.88 "
               "on every run; counterexamples are replayed on the real library before being reported).")
+LEVEL_NOTE_EXTRA = 'Also: a record rotated before and edited in place; qualifier values of several Python types; locations combined by order(...) and with open ends.'
 TECHNIQUE = "bounded symbolic execution of the real Python source (symx re-execution engine) with z3 deciding every branch and assertion; length case-split; replay on the real stack"
 EXPLANATION = (
     "bounded symbolic execution (symx + z3) of the real CircularRecord.__rshift__/__lshift__: record length n is "
